@@ -28,7 +28,7 @@ def model(ctx: Ctx) -> None:
 
 def bbans_for(row: dict, rng: random.Random, k: int) -> list[str]:
     out = []
-    for mode in ("low", "high", "letters"):
+    for mode in ("low", "high", "letters", "sparse", "sparse"):
         b = gen.bban_for(row, rng, mode)
         if b and b not in out:
             out.append(b)
